@@ -187,6 +187,62 @@ def stockTables : InfoTables :=
   { JUMP := Gen.PI_JUMP.map ([·]), WEEKDAYS := Gen.PI_WEEKDAYS, MONTHS := Gen.PI_MONTHS, HMS := Gen.PI_HMS, AMPM := Gen.PI_AMPM,
     UTCZONE := Gen.PI_UTCZONE.map ([·]), PERTAIN := Gen.PI_PERTAIN.map ([·]), TZOFFSET := [] }
 
+/-! ### `_build_tzinfo`: the `tzinfos` argument and what it hands back -/
+
+/-- the object `_build_tzinfo` returns -/
+inductive TzObj where
+  | data (d : TzData)                       -- the tzinfo instance (or None) the user's `tzinfos` gave, as it is
+  | tzstr (s : Token)                       -- `tz.tzstr(s)`
+  | fixed (name : Option Token) (n : Int)   -- `tz.tzoffset(name, n)`
+  deriving Repr, DecidableEq, Inhabited
+
+/-- `callable(tzinfos)` -/
+def tziCallable : TzInfos → Bool
+  | .callable _ _ => true
+  | _ => false
+
+/-- what a user value is when it arrives: the `raises` marker = the user's function raises ValueError -/
+def tziArrive (d : TzData) : R TzData := if d = .raises then .error .ValueError else .ok d
+
+/-- `tzinfos(tzname, tzoffset)` -/
+def tziCall (tzi : TzInfos) (name : Option Token) (off : Option Int) : R TzData :=
+  match tzi with
+  | .callable entries dflt =>
+    match lookupKey entries name with
+    | some d => tziArrive d
+    | none => match dflt with
+      | .data d => tziArrive d
+      | .echoOffset => match off with | some n => .ok (.int n) | none => .ok .noneVal
+  | _ => .error .TypeError
+
+/-- `tzinfos.get(tzname)` -/
+def tziGet (tzi : TzInfos) (name : Option Token) : R TzData :=
+  match tzi with
+  | .mapping entries => tziArrive ((lookupKey entries name).getD .noneVal)
+  | _ => .error .AttributeError
+
+def isTzinfoObj : TzData → Bool | .obj _ => true | _ => false
+def isText : TzData → Bool | .str _ => true | _ => false
+def isInt : TzData → Bool | .int _ => true | _ => false
+
+/-- `tz.tzstr(tzdata)` -/
+def mkTzstr (d : TzData) : R TzObj :=
+  match d with
+  | .str s => (tzstrCtor s).map (fun _ => TzObj.tzstr s)
+  | _ => .error .TypeError
+
+/-- `tz.tzoffset(tzname, tzdata)` -/
+def mkTzoffset (name : Option Token) (d : TzData) : R TzObj :=
+  match d with
+  | .int n => if offsetOk n then .ok (.fixed name n) else .error .OverflowError
+  | _ => .error .TypeError
+
+/-- the model's descriptor of `naive.replace(tzinfo=<that object>)` for the parsed name -/
+def descrOf (name : Option Token) : TzObj → TzDescr
+  | .data d => .viaTzinfos d name
+  | .tzstr s => .viaTzinfos (.str s) name
+  | .fixed nm n => .fixed nm n
+
 /-! ### the datetime `parser.parse` returns, as far as the model speaks about it -/
 
 /-- wall time + what its `tzinfo` is -/
